@@ -166,16 +166,15 @@ func (g *SessionManager) selectSession(msg interface{}) getty.Session {
 		for i := 0; i < maxCheckAliveRetry; i++ {
 			<-ticker.C
 			g.allSessions.Range(func(key, value interface{}) bool {
-				candidate := key.(getty.Session)
-				if candidate.IsClosed() {
+				if candidate := key.(getty.Session); candidate.IsClosed() {
 					// a connection that went away again: not a session to write to
 					g.releaseSession(candidate)
-					return true
 				}
-				session = candidate
-				return false
+				return true
 			})
-			if session != nil {
+			// a request that had to wait is routed like any other: by the configured policy, among the sessions
+			// that are there now (under the XID policy to the coordinator of its transaction)
+			if session = loadbalance.Select(config.GetSeataConfig().LoadBalanceType, &g.allSessions, g.getXid(msg)); session != nil {
 				return session
 			}
 		}
